@@ -1,0 +1,37 @@
+//! Verification hooks (cargo feature `verif_hooks`, off by default): a recorder of every source
+//! read made through `LexerInternal::read`, and of attempt starts / restarts.
+
+use std::cell::RefCell;
+use std::vec::Vec;
+
+/// One recorded event.
+#[derive(Clone, Copy, Debug, PartialEq, Eq)]
+pub enum Event {
+    /// `Iterator::next` was called; the attempt starts at this offset.
+    Next(usize),
+    /// `trivia()` was called (skip); the next attempt starts at this offset.
+    Restart(usize),
+    /// `read::<Chunk>(offset)` with `Chunk::SIZE = size` on a source of length `len`.
+    Read {
+        /// offset passed to `read`
+        offset: usize,
+        /// `Chunk::SIZE`
+        size: usize,
+        /// length of the source
+        len: usize,
+    },
+}
+
+thread_local! {
+    static TRACE: RefCell<Vec<Event>> = const { RefCell::new(Vec::new()) };
+}
+
+#[inline]
+pub(crate) fn push(e: Event) {
+    TRACE.with(|t| t.borrow_mut().push(e));
+}
+
+/// Take (and clear) the trace recorded on this thread.
+pub fn take_trace() -> Vec<Event> {
+    TRACE.with(|t| core::mem::take(&mut *t.borrow_mut()))
+}
